@@ -512,7 +512,8 @@ package commitlog
 //@   ensures 0 <= i && i < entryCount(s.Index) ==> result == (entryOffAt(s.Index, i) >= offset)
 //@ func (*segment).findEntry serves C08, C10, C01, C03
 //@   returns (ent, err)
-//@   requires s != nil && s.Index != nil && s.Index.position >= 0
+//@   requires s != nil
+//@   assumes s.Index != nil && s.Index.position >= 0
 //@   assumes forall i int64, j int64 :: 0 <= i && i < j && j < entryCount(s.Index) ==> entryOffAt(s.Index, i) < entryOffAt(s.Index, j)
 //@   ensures [at-or-above] err == nil ==> ent != nil && ent.Offset >= offset
 //@   ensures [is-an-entry] err == nil ==> (exists k int64 :: 0 <= k && k < entryCount(s.Index) && ent.Offset == entryOffAt(s.Index, k))
